@@ -32,6 +32,7 @@ type xField struct {
 type xType struct {
 	Name   string
 	Enum   []string
+	Nums   []int // the numbers of the enum's values, as declared (any distinct numbers, any order)
 	Fields []xField
 }
 type xParam struct {
@@ -88,7 +89,11 @@ func genXApp(r *Rand) *xApp {
 		_ = i
 	}
 	if hasEnum {
-		a.Types = append(a.Types, xType{Name: "Status", Enum: []string{"NEW", "PAID", "SENT"}[:1+r.Intn(3)]})
+		et := xType{Name: "Status", Enum: []string{"NEW", "PAID", "SENT", "LOST"}[:1+r.Intn(4)]}
+		// numbering: dense from 1 or 0, offset, sparse, or declared in descending order
+		scheme := Pick(r, [][]int{{1, 2, 3, 4}, {0, 1, 2, 3}, {10, 11, 12, 13}, {1, 4, 5, 9}, {4, 3, 2, 1}, {7, 2, 40, 3}})
+		et.Nums = scheme[:len(et.Enum)]
+		a.Types = append(a.Types, et)
 	}
 	verbs := []string{"GET", "POST", "PUT", "DELETE", "PATCH"}
 	np := 1 + r.Intn(3)
@@ -133,7 +138,7 @@ func genXApp(r *Rand) *xApp {
 		if t.Enum != nil {
 			fmt.Fprintf(&b, "    !enum %s:\n", t.Name)
 			for i, e := range t.Enum {
-				fmt.Fprintf(&b, "        %s: %d\n", e, i+1)
+				fmt.Fprintf(&b, "        %s: %d\n", e, t.Nums[i])
 			}
 			continue
 		}
@@ -356,8 +361,21 @@ func c12CheckOpenAPI3(res *Result, in map[string]any, a *xApp, out []byte, mode 
 			for _, e := range s.Enum {
 				got = append(got, fmt.Sprint(e))
 			}
-			if strings.Join(got, ",") != strings.Join(t.Enum, ",") {
-				viol("enum-values-differ", fmt.Sprintf("enum %s: schema lists %v, declared %v (in number order)", t.Name, got, t.Enum))
+			want := append([]string{}, t.Enum...)
+			sort.Slice(want, func(i, j int) bool {
+				ni, nj := 0, 0
+				for k, e := range t.Enum {
+					if e == want[i] {
+						ni = t.Nums[k]
+					}
+					if e == want[j] {
+						nj = t.Nums[k]
+					}
+				}
+				return ni < nj
+			})
+			if strings.Join(got, ",") != strings.Join(want, ",") {
+				viol("enum-values-differ", fmt.Sprintf("enum %s: schema lists %v, declared %v (in number order)", t.Name, got, want))
 			}
 			continue
 		}
